@@ -69,6 +69,11 @@ def gen_source_case(rng, noisy=False, d25=False, big_ok=True):
     bmaj = beam_px * scale
     bmin = bmaj * (1.0 if rng.random() < 0.4 else float(rng.uniform(0.55, 1.0)))
     bpa = float(rng.choice([0.0, 90.0, 45.0, -45.0])) if rng.random() < 0.3 else float(rng.uniform(-90, 90))
+    south = bool(rng.random() < 0.08)
+    if south:
+        # beam position angle given near +-180 (the same beam as near 0): the fit then works at theta ~ +-180, where a
+        # bearing difference can wrap
+        bpa = float(rng.choice([179.6, -179.7, 180.0, 179.95, -180.0, 178.0]))
     docov = bool(rng.random() < 0.5)
     # source shape (arcsec): b >= beam major so that it is at least beam sized in every direction
     amax = 3.0 if (big_ok and not docov) else (2.0 if docov else 3.0)
@@ -79,6 +84,9 @@ def gen_source_case(rng, noisy=False, d25=False, big_ok=True):
     a = min(a, bmaj * 3600 * amax * 1.6, 11.0 * scale * 3600)
     a = max(a, b)
     pa = float(rng.choice([0.0, 45.0, -45.0, 90.0, 30.0])) if rng.random() < 0.3 else float(rng.uniform(-89.99, 90))
+    if south:
+        pa = float(rng.uniform(-3.0, 3.0))
+        a = max(a, 1.6 * b)
     sub = rng.random()
     i0, j0 = float(rng.integers(24, rows - 24)), float(rng.integers(24, cols - 24))
     if d25 or sub < 0.25:
